@@ -138,11 +138,14 @@ class BodyPart:
         Returns:
             bytes: The body part content.
         """
+        max_size = self._parse_options.max_body_part_buffer_size + 1
         if self._data is None:
-            max_size = self._parse_options.max_body_part_buffer_size + 1
             self._data = self.stream.read(max_size)
-            if len(self._data) >= max_size:
-                raise MultipartParseError(description='body part is too large')
+
+        # NOTE: Checked on every call; the truncated read of an oversized part
+        #   stays cached, and must not be handed out by a later call.
+        if len(self._data) >= max_size:
+            raise MultipartParseError(description='body part is too large')
 
         return self._data
 
